@@ -396,7 +396,7 @@ func confirm(e Engine, known []Finding, out string) int {
 			if v.Pinned != nil {
 				c = v.Pinned
 			}
-			cr.Reproduced = v.V.Class == f.Class && e.Matches(c, v.V, f)
+			cr.Reproduced = e.Matches(c, v.V, f)
 		}
 		res = append(res, cr)
 	}
